@@ -79,6 +79,15 @@ def emit(g, depth=0):
         n = len(g[1])
         vs = ", ".join(f"v{i}" for i in range(n))
         return "group((" + ", ".join(emit(x, depth) for x in g[1]) + f",)).map(|({vs},)| Val::G(vec![{vs}]))"
+    if o == "grouparr":
+        # group([p; N]) needs N parsers of ONE type: the elements must be the same grammar, built once and cloned
+        if not g[1] or any(x != g[1][0] for x in g[1]):
+            raise Unsupported("array group of different parsers")
+        n = len(g[1])
+        cl = ", ".join(["p.clone()"] * (n - 1) + ["p"])
+        return f"{{ let p = {emit(g[1][0], depth)}; group([{cl}]).map(|a: [Val; {n}]| Val::A(a.into_iter().collect())) }}"
+    if o == "exact":
+        return f"{it(g[1], depth)}.collect_exactly::<[Val; {g[2]}]>().map(|a| Val::A(a.into_iter().collect()))"
     if o == "ornot":
         return f"({A(1)}).or_not().map(|o| match o {{ Some(v) => Val::O(Box::new(v)), None => Val::N }})"
     if o == "not":
@@ -169,16 +178,47 @@ HAND = [
     ["then", ["andis", ["just", ["a", "b"]], ["just", ["a"]]], ["any"]],
     ["then", ["not", ["just", ["a", "b"]]], ["collect", ["rep", ["any"], 0, -1], "vec"]],
 ]
+# C19: hand-managed initialisation (group over an array, collect_exactly) with statically typed element parsers --
+# parser types WITHOUT drop glue producing outputs WITH drop glue -- failing part-way, backtracked over, in check mode
+MF = ["map", ["any"], "f"]
+KB = ["to", ["just", ["b"]], "k"]
+RESTC = ["collect", ["rep", ["any"], 0, -1], "vec"]
+HAND += [
+    ["grouparr", [MF, MF, MF]],
+    ["or", ["grouparr", [MF, MF, MF]], RESTC],
+    ["grouparr", [KB, KB]],
+    ["then", ["ornot", ["grouparr", [KB, KB, KB]]], RESTC],
+    ["collect", ["rep", ["grouparr", [["map", ["oneof", ["a", "b"]], "f"], ["map", ["oneof", ["a", "b"]], "f"]]], 0, -1], "vec"],
+    ["or", ["exact", ["rep", ["map", ["just", ["a"]], "f"], 0, -1], 3], RESTC],
+    ["exact", ["sep", ["map", ["any"], "f"], ["just", ["b"]], 0, -1, False, False], 2],
+    ["then", ["ornot", ["exact", ["rep", ["to", ["any"], "k"], 0, 2], 3]], RESTC],
+    ["recover", ["grouparr", [MF, MF]], ["via", ["to", ["any"], "r"]]],
+]
+
+def existing():
+    """the committed sample (harness/src/stat.rs ASTS): kept as it is, new shapes are appended (KEEP=0 draws afresh)"""
+    path = os.path.join(ROOT, "harness", "src", "stat.rs")
+    if os.environ.get("KEEP", "1") == "0" or not os.path.exists(path):
+        return []
+    out = []
+    for line in open(path):
+        line = line.strip()
+        if line.startswith('r##"') and line.endswith('"##,'):
+            out.append(json.loads(line[4:-4]))
+    return out
 
 def main():
     asts, seen = [], set()
-    for g in HAND:
+    old = existing()
+    for g in old + HAND:
+        if json.dumps(g) in seen:
+            continue
         asts.append(g)
         seen.add(json.dumps(g))
     plan = [("peg", 11, 60, 5), ("peg", 12, 40, 7), ("emit", 13, 30, 6), ("err", 14, 30, 6), ("rcv", 15, 30, 6), ("memo", 16, 40, 6), ("rec", 17, 30, 6), ("lbl", 18, 30, 6)]
     quota = {"peg": 28, "emit": 8, "err": 8, "rcv": 8, "memo": 12, "rec": 6, "lbl": 8}
     got = {k: 0 for k in quota}
-    for fam, seed, n, size in plan:
+    for fam, seed, n, size in ([] if old else plan):
         out = subprocess.run([CVH, "gen", "--family", fam, "--n", str(n), "--seed", str(seed), "--size", str(size)], stdout=subprocess.PIPE, text=True, check=True).stdout
         for line in out.splitlines():
             g = json.loads(line)
